@@ -851,7 +851,8 @@ func execSmerge(t *testing.T, sc Scn) *runOut {
 				}
 			}
 			// an input's Close that is still running (it takes time and the script has not released it
-			// yet) is the environment's turn: what the owner does only after it is not overdue
+			// yet) is the environment's turn: a report the owner makes only after it is not overdue, and
+			// Close of the merged stream has to wait for it
 			closing := 0
 			for _, g := range ins {
 				closing += g.inClose
@@ -859,7 +860,7 @@ func execSmerge(t *testing.T, sc Scn) *runOut {
 			if closing > 0 {
 				o.notes["quiescent-with-input-close-in-progress"]++
 			}
-			if pending && closing == 0 {
+			if pending {
 				allEnded, allDelivered, anyErr := true, true, false
 				for i, g := range ins {
 					if !g.ended {
@@ -873,9 +874,13 @@ func execSmerge(t *testing.T, sc Scn) *runOut {
 					}
 				}
 				if anyErr {
-					o.fail("c08-merge-error-not-surfaced", params(), "input error E%d occurred, a Next call of the merged stream is still blocked at quiescence", firstErr)
+					if closing == 0 {
+						o.fail("c08-merge-error-not-surfaced", params(), "input error E%d occurred, a Next call of the merged stream is still blocked at quiescence", firstErr)
+					}
 				} else if allEnded && allDelivered {
-					o.fail("smerge-no-end", params(), "all %d inputs have ended and everything was delivered, but Next of the merged stream does not return", k)
+					if closing == 0 {
+						o.fail("smerge-no-end", params(), "all %d inputs have ended and everything was delivered, but Next of the merged stream does not return", k)
+					}
 				} else if !allDelivered {
 					o.fail("smerge-item-not-offered", params(), "an input yielded an item that is not delivered although a Next call is waiting")
 				}
